@@ -31,25 +31,27 @@ BIN = "c11"
 # payloads (same generator in Drv/C11.lean)
 
 
-def payload(n, w, seed):
-    b = bytearray(n)
-    for i in range(n):
-        if (i + 1) % w == 0 or i + 1 == n:
-            b[i] = 10
-        else:
-            b[i] = 97 + ((i * 7 + (i // w) * 3 + seed) % 25)
-    return bytes(b)
+MB = {2: bytes([195, 169]), 3: bytes([226, 130, 172]), 4: bytes([240, 159, 152, 128])}   # é € 😀
 
 
 def payload_fast(n, w, seed):
-    # one period of the generator is lcm(25, w) * ... ; build per line (still O(n) but in chunks)
+    """Lines of w bytes, last byte newline.  seed < 100: letters a..y.  seed = 100*m + s (m = 2, 3, 4): each
+    line is (line number % m) letters `a` followed by m-byte UTF-8 characters, padded with `x` where a whole
+    character no longer fits before the newline (so characters sit at every phase relative to any boundary)."""
+    m = seed // 100
     out = bytearray()
     i = 0
     while i < n:
         ln = min(w, n - i)
         q = i // w
-        line = bytes(97 + (((i + j) * 7 + q * 3 + seed) % 25) for j in range(ln - 1)) + b"\n"
-        out += line
+        if m == 0:
+            line = bytes(97 + (((i + j) * 7 + q * 3 + seed) % 25) for j in range(ln - 1))
+        else:
+            content = ln - 1
+            off = min(q % m, content)
+            k = (content - off) // m
+            line = b"a" * off + MB[m] * k + b"x" * (content - off - k * m)
+        out += line + b"\n"
         i += ln
     return bytes(out)
 
@@ -99,6 +101,7 @@ FORMS = {
 CLASSES = ["external", "builtin", "function", "brace", "subshell", "loop"]
 BY_CLASS = {c: [n for n, f in FORMS.items() if f[1] == c] for c in CLASSES}
 SLOW = {"loop", "floop", "evalloop", "loopb", "gread"}   # byte-at-a-time readers
+READERS = SLOW | {"read"}   # forms built on the `read` builtin (decodes bytes as Latin-1: ASCII payloads only)
 
 
 def forms_for(cls, pos, k):
@@ -297,7 +300,11 @@ def gen_pipe_cases(ctx, cap):
             w = 256 if any(s in SLOW for s in stages) else 64
         while not ok_size(n, w):
             n += 1
-        cases.append({"stages": list(stages), "n": n, "w": w, "seed": (n + len(cases)) % 23, "kind": kind})
+        seed = (n + len(cases)) % 23
+        if not any(s_ in READERS for s_ in stages) and len(cases) % 5 in (1, 2, 3) and n > 1:
+            # multi-byte UTF-8 payload (2-, 3-, 4-byte characters at every phase)
+            seed += 100 * (2 + (len(cases) // 5) % 3)
+        cases.append({"stages": list(stages), "n": n, "w": w, "seed": seed, "kind": kind})
 
     # (a) every class in every position, 2 and 3 stages; the form inside a class and the size rotate
     #     deterministically so that the enumeration is seed independent
@@ -473,6 +480,7 @@ def pipe_stream(ctx, work, cap):
         ctx.count(("pipe", tuple(c["stages"]), c["n"], c["w"]), nontrivial=c["n"] > 1, bucket="pipe_" + c["kind"])
         ctx.bucket("pipe_size_" + ("le_cap" if c["n"] <= cap else "gt_cap"))
         ctx.bucket("pipe_model_" + ("completes" if impl_done else "deadlocks"))
+        ctx.bucket("pipe_payload_" + ("ascii" if c["seed"] < 100 else "utf8_%dbyte" % (c["seed"] // 100)))
         if has_limit(c["stages"]):
             ctx.bucket("pipe_early_exit_reader")
         ctx.impl_validated += 1
@@ -584,19 +592,32 @@ def gen_subst_cases(ctx, work, cap):
     for n in ([cap - 100, cap + 1, 3 * cap] + ([] if ctx.quick else [1 << 20, 4 << 20])):
         for t in (0, 1, 3):
             texts.append(payload_fast(n, 64, 5).decode().rstrip("\n") + "\n" * t)
+    # multi-byte UTF-8: one long line of 2-, 3- or 4-byte characters behind a prefix of 0..m-1 ASCII bytes, so
+    # that for every m some character straddles every 4 KiB / 16 KiB / 64 KiB (and power-of-two) offset;
+    # sizes from below 4 KiB to several pipe capacities; plus line-structured non-ASCII text
+    chars = {2: "\u00e9", 3: "\u20ac", 4: "\U0001F600"}
+    mb_sizes = [3000, 5000, 17000, 40000, cap + 5, 3 * cap + 7] + ([] if ctx.quick else [300000, (1 << 20) + 3])
+    for m in (2, 3, 4):
+        for phase in range(m):
+            for n in mb_sizes:
+                texts.append("a" * phase + chars[m] * ((n - phase) // m) + "\n" * (phase % 3))
+        for n in ([20000, 2 * cap + 1] if ctx.quick else [20000, 2 * cap + 1, 364000]):
+            texts.append(payload_fast(n, 64 + m, 100 * m + 1).decode("utf-8"))
+    texts.append("caf\u00e9 \u20ac5 \U0001F600\n\u00e9\n\n")
+    texts.append("\u00e9")
     for _ in range(ctx.size(60, 1500)):
         k = rng.randint(0, 12)
-        texts.append("".join(rng.choice(["a", "b", " ", "\n", "\n", "xyz", "\t"]) for _ in range(k)))
+        texts.append("".join(rng.choice(["a", "b", " ", "\n", "\n", "xyz", "\t", "\u00e9", "\u20ac"]) for _ in range(k)))
     cases = []
     for i, t in enumerate(texts):
         form, fname = SUBST_FORMS[i % len(SUBST_FORMS)]
         code = [0, 0, 3, 141, 255][i % 5]
         df = work.fresh("d")
-        with open(df, "w") as f:
+        with open(df, "w", encoding="utf-8", newline="") as f:
             f.write(t)
         if fname == "external":
             script = "DF=%s\n" % lib_sq(df)
-        elif len(t) > 100000:
+        elif len(t.encode("utf-8")) > 100000:
             script = "DF=%s\n" % lib_sq(df)
             form, fname = 'cat "$DF" | cat', "pipeline"
         else:
@@ -606,6 +627,14 @@ def gen_subst_cases(ctx, work, cap):
         script += 'st=$?; printf "%s" "$X" > "$OUT"; (exit $st)\n'
         cases.append({"text": t, "code": code, "form": fname, "script": script, "req": "C11 strip " + esc(t), "kind": "subst"})
     return cases
+
+
+def _first_diff(a, b):
+    ab, bb = a.encode("utf-8", "replace"), b.encode("utf-8", "replace")
+    for i, (x, y) in enumerate(zip(ab, bb)):
+        if x != y:
+            return i
+    return None if len(ab) == len(bb) else min(len(ab), len(bb))
 
 
 def lib_sq(s):
@@ -622,6 +651,7 @@ def gen_read_cases(ctx, work):
         if rng.random() < 0.7 and t:
             t += "\n"
         texts.append(t)
+    texts += ["caf\u00e9\nz\n", "\u20ac5\n\U0001F600 b\nrest\u00e9\n"]
     cases = []
     i = 0
     for t in texts:
@@ -635,7 +665,7 @@ def gen_read_cases(ctx, work):
                 script = "D=%s\nprintf '%%s' \"$D\" | %s > \"$OUT\"\n" % (lib_sq(t), group)
             else:
                 df = work.fresh("r")
-                with open(df, "w") as f:
+                with open(df, "w", encoding="utf-8", newline="") as f:
                     f.write(t)
                 if via == "file":
                     script = "%s < %s > \"$OUT\"\n" % (group, lib_sq(df))
@@ -664,7 +694,15 @@ def run_inproc(scripts):
         if len(nxt) == len(todo):
             break
         todo = nxt
-    return [o if o is not None else "HANG" for o in outs]
+    outs = [o if o is not None else "HANG" for o in outs]
+    # a real hang reproduces; an overloaded machine does not: every HANG is tried again, alone, with a long limit
+    for i, o in enumerate(outs):
+        if o == "HANG":
+            time.sleep(1)
+            rc, res, _ = lib.run_vh(BIN, [esc(scripts[i])], env={"C11_CASE_TIMEOUT_MS": "60000"}, timeout=120)
+            if res and res[0] not in ("SKIPPED",):
+                outs[i] = res[0]
+    return outs
 
 
 def parse_vh(r):
@@ -689,6 +727,30 @@ def run_bash_scripts(work, scripts):
             os.unlink(o)
         return r
     return lib.pmap(one, scripts, workers=8)
+
+
+BAD_UTF8 = ["a\\xffb", "\\x80", "ab\\xe2\\x82", "\\xc3\\x28 ok\\n\\n"]
+
+
+def bad_utf8_stream(ctx):
+    """`$(cmd)` whose output is not valid UTF-8, through the binaries.  brush today: the reader fails with
+    'stream did not contain valid UTF-8' and the whole script is abandoned (deterministic)."""
+    for spec in BAD_UTF8:
+        script = "x=$(printf '%s'); st=$?; printf '%%s' \"$x\" | od -An -v -tx1 | tr -d ' \\n'; echo \" $st\"" % spec
+        b, o = lib.run_both(script, timeout=30)
+        ctx.count(("badutf8", spec), bucket="subst_invalid_utf8")
+        ctx.impl_validated += 1
+        case = {"script": script, "kind": "badutf8", "brush": {"rc": b["rc"], "out": b["out"], "err": b["err"][-200:]},
+                "bash": {"rc": o["rc"], "out": o["out"]}}
+        if b["timeout"]:
+            ctx.violation("command substitution with non-UTF-8 output hangs", case)
+        elif b["out"] == o["out"] and b["rc"] == o["rc"]:
+            ctx.notes.append("finding_not_reproduced: $(printf '%s') is byte-exact" % spec)
+        elif b["out"] == "" and "valid UTF-8" in b["err"]:
+            ctx.known_or_violation("cmdsubst_invalid_utf8_aborts",
+                                   "$(cmd) whose output is not valid UTF-8 fails with an i/o error and abandons the script", case)
+        else:
+            ctx.violation("$(cmd) with non-UTF-8 output differs from bash in an unrecorded way", case)
 
 
 def inproc_streams(ctx, work, cap):
@@ -739,7 +801,10 @@ def inproc_streams(ctx, work, cap):
                 ctx.violation(direct, dict(small, brush=file_line, model=m, bash=b["file"].strip()))
         elif kind == "subst":
             ctx.count(("subst", c["text"][:200], len(c["text"]), c["code"], c["form"]), nontrivial=c["text"].endswith("\n"), bucket="subst_" + c["form"])
-            ctx.bucket("subst_" + ("gt_cap" if len(c["text"]) > cap else "le_cap"))
+            nb = len(c["text"].encode("utf-8"))
+            ctx.bucket("subst_" + ("gt_cap" if nb > cap else "le_cap"))
+            if nb != len(c["text"]):
+                ctx.bucket("subst_multibyte_" + ("gt_16k" if nb > 16384 else "le_16k"))
             x = unesc(d.get("x", "%"))
             want = c["text"].rstrip("\n")
             mx = unesc(m)
@@ -757,7 +822,9 @@ def inproc_streams(ctx, work, cap):
                 if nv < 10:
                     nv += 1
                     ctx.violation("command substitution: brush and the model disagree" + (": " + direct if direct else ""),
-                                  dict(small, brush_len=len(x), model_len=len(mx), brush_tail=x[-20:], model_tail=mx[-20:], st=st),
+                                  dict(small, brush_bytes=len(x.encode("utf-8", "replace")), expected_bytes=len(want.encode("utf-8")),
+                                       first_difference_at_byte=_first_diff(x, want), brush_hash=hash_bytes(x.encode("utf-8", "replace")),
+                                       expected_hash=hash_bytes(want.encode("utf-8")), st=st),
                                   kind="property" if direct else "correspondence")
             elif direct and nv < 10:
                 nv += 1
@@ -774,7 +841,13 @@ def inproc_streams(ctx, work, cap):
                 direct = "`read` on a shared descriptor consumed something else than bash's (not exactly one line each)"
             if b["file"] != want:
                 ctx.oracle_mismatch += 1
-            if got != want:
+            moji = "R[" + rest + "]" + "".join("<%s>" % l.encode("utf-8").decode("latin-1") for l in lines)
+            if got != want and got == moji and b["file"] == want:
+                # outside the model (it speaks about characters): the line comes back with every byte of a
+                # multi-byte character turned into a character of its own
+                ctx.known_or_violation("read_decodes_bytes_as_latin1",
+                                       "`read` returns non-ASCII input with each byte re-encoded as a Latin-1 character", dict(small, brush=got, bash=b["file"]))
+            elif got != want:
                 if nv < 10:
                     nv += 1
                     ctx.violation("read: brush and the model disagree" + (": " + direct if direct else ""),
@@ -801,6 +874,7 @@ def run(ctx):
     try:
         pipe_stream(ctx, work, cap)
         inproc_streams(ctx, work, cap)
+        bad_utf8_stream(ctx)
     finally:
         work.close()
     ctx.cov["rule"] = ("pipe: every stage class {external, builtin, function, brace, subshell, while-read} in every position for 2 and 3 "
@@ -815,7 +889,8 @@ def run(ctx):
         "for inline stages (the usable capacity depends on write granularity)" % cap,
         "scheduler fairness, SIGPIPE delivery timing and pipe write atomicity are outside the model; where the model's two extreme schedules give "
         "different statuses (small payload before an early-exit reader) either is accepted",
-        "payload bytes are printable ASCII lines (no NUL, no backslash processing: read -r)",
+        "payload bytes are printable ASCII or valid multi-byte UTF-8 (no NUL, no backslash processing: read -r); stages built on `read` get ASCII only "
+        "(read decodes bytes as Latin-1, clause read_decodes_bytes_as_latin1)",
     ]
 
 
